@@ -384,7 +384,7 @@ def explore(pid, tier, seed, ex):
                     ex.violate("oracle: operator name not dispatched (returned as a literal)", c[-1], r, "an operation result")
     elif pid == "C03":
         cases = streams.s_arity(tier)
-        cnt = [c for c in cases if c[0] == "count"]
+        cnt = [c for c in cases if c[0] in ("count", "count-filler")]
         lines = [c[3] for c in cnt]
         ri = R.impl(lines); rm = R.model(lines)
         ex.account(lines, ri)
@@ -393,6 +393,8 @@ def explore(pid, tier, seed, ex):
             doc = gen.DOC[c[1]](c[2])
             if jl.is_bad(a):
                 ex.violate("operand count crashed instead of being rejected", c[3], a, "err" if not doc else "ok …")
+            elif c[0] == "count-filler" and doc:
+                if not same(a, m): ex.violate("impl-vs-model on arity stream (filler operands)", c[3], a, m)
             elif accepted != doc:
                 ex.violate("oracle: operand count %d of %s is %s but documented %s" % (c[2], c[1], "accepted" if accepted else "rejected", "valid" if doc else "invalid"),
                            c[3], a, "ok …" if doc else "err")
@@ -418,7 +420,17 @@ def explore(pid, tier, seed, ex):
         both(streams.s_truthy(g, tier), {"C06", "C05", "C13", "C14"}, "truthiness")
     elif pid == "C07":
         both(streams.s_pairs(["==", "!="], ["abstract_eq", "abstract_ne"], tier, g), {"C07"}, "pairs")
-        lines = ["str_to_number " + enc(s) for s in gen.NUMSTRS + [g.string() for _ in range(2000)]]
+        def radix_lit():
+            r = g.r
+            pre, digs = r.choice([("0x", "0123456789abcdefABCDEF"), ("0o", "01234567"), ("0b", "01"), ("0X", "0123456789abcdef")])
+            n = r.choice([r.randint(1, 12), r.randint(13, 20), r.randint(50, 70), r.randint(1, 300)])
+            body = "".join(r.choice(digs) for _ in range(n))
+            if r.random() < 0.5: body = r.choice(["1", "2", "4", "8", "1f", "3"])[:1] + body     # vary the leading bit position
+            if r.random() < 0.3: body = body[:max(1, len(body) - 3)] + r.choice(["800", "801", "7ff", "000", "001", "400"]) if pre.lower() == "0x" else body
+            return r.choice(["", " ", ""]) + pre + body
+        rad = [radix_lit() for _ in range(4000 if tier == "quick" else 100000)]
+        lines = ["str_to_number " + enc(s) for s in gen.NUMSTRS + [g.string() for _ in range(2000)] + rad]
+        lines += [gen.app({"==": [s, {"var": ""}]}, 2305843009213694464) for s in rad[:300]]
         both(lines, {"C07"}, "str_to_number")
     elif pid == "C08":
         both(streams.s_pairs(["===", "!=="], ["strict_eq", "strict_ne"], tier, g), {"C08"}, "pairs")
@@ -506,6 +518,18 @@ def run_c04(ex, g, tier, both):
             {"if": [False, 1, {"log": "e"}]}, {"var": [{"log": "k"}, {"log": "d"}]}, {"substr": [{"log": "abc"}, {"log": 1}]}, {"map": [{"log": [1]}, 1]},
             {"reduce": [{"log": [1]}, {"log": {"var": "current"}}, {"log": 0}]}, {"all": [{"log": [1]}, {"log": {"var": ""}}]}, {"in": [{"log": 1}, {"log": [1]}]}]
     lines = [gen.app(r, d) for r in hand] + lines
+    # collections fetched as the WHOLE data (var "", null, no key), at top level and per element of an outer map/filter
+    arrd = [{"+": [1, 2]}, {"var": "nope"}, {"log": "LEAK"}, 3, {"==": [1]}]
+    for q in ("all", "some", "none"):
+        for key in ("", None, []):
+            for pred in ({"===": [{"var": ""}, 3]}, {"var": ""}, True, {"!": [{"var": ""}]}):
+                lines.insert(0, gen.app({q: [{"var": key} if key != [] else {"var": []}, pred]}, arrd))
+                lines.insert(0, gen.app({"map": [{"var": "rows"}, {q: [{"var": key} if key != [] else {"var": []}, pred]}]}, {"rows": [[1, {"var": "nope"}], [2, 3], arrd]}))
+                lines.insert(0, gen.app({"filter": [{"var": "rows"}, {q: [{"var": key} if key != [] else {"var": []}, pred]}]}, {"rows": [[{"+": [1, 2]}], [3], []]}))
+    for k2 in ("map", "filter"):
+        lines.insert(0, gen.app({k2: [{"var": ""}, {"var": ""}]}, arrd))
+    lines.insert(0, gen.app({"reduce": [{"var": ""}, {"var": "current"}, 0]}, arrd))
+    lines.insert(0, gen.app({"in": [3, {"var": ""}]}, arrd)); lines.insert(0, gen.app({"merge": [{"var": ""}, {"var": ""}]}, arrd))
     ri = R.impl(lines); rm = R.model(lines)
     ex.account(lines, ri)
     dis = [(l, a, m) for l, a, m in zip(lines, ri, rm) if not same(a, m)]
@@ -631,6 +655,38 @@ def run_c17(ex, g, tier):
                 ex.violate("history: call %d of a %d-call history differs from the same call in isolation" % (i, len(seq)), l, a, iso[l],
                            note="history: " + json.dumps([show_line(s)[:120] for s in seq[:i + 1]][-6:]))
                 break
+    # two-step interference: every ordered pair of a set of special calls, adjacent in one history
+    pd = {"": {"b": "X"}, ".b": "Y", "dir\\": "D", "a": {"b": [1, 2]}, "\\x": 1, "x": 2, "w": "12px", "h": "0x10", "e": ""}
+    special = [gen.app({"var": "dir\\"}, pd), gen.app({"var": ".b"}, pd), gen.app({"var": "\\x"}, pd), gen.app({"var": "a.b.1"}, pd), gen.app({"missing": ["dir\\", ".b"]}, pd),
+               gen.app({"==": [{"var": "w"}, 12]}, pd), gen.app({"+": [{"var": "w"}, 1]}, pd), gen.app({"*": [{"var": "h"}, 2]}, pd), gen.app({"==": [{"var": "h"}, 16]}, pd),
+               gen.app({"-": [{"var": "e"}, 1]}, pd), gen.app({"+": [{"var": "e"}, 1]}, pd), gen.app({"in": [1, 2]}, None), gen.app({"if": [True, "a", {"in": [1, 2]}]}, None),
+               gen.app({"if": [{"in": [1, 2]}, 1, 2]}, None), gen.app({"map": [5, 1]}, None), gen.app({"map": [[1, 2], {"+": [{"var": ""}, 1]}]}, None),
+               gen.app({"all": [[1], {"in": ["a", {"var": ""}]}]}, None), gen.app({"all": [[1, 2], {">": [{"var": ""}, 0]}]}, None), gen.app({"reduce": [1, 2, 3]}, None),
+               gen.app({"substr": ["héllo", -2]}, None), gen.app({"cat": [1.5, "x"]}, None), gen.app({"var": ["zz", {"+": ["q"]}]}, None)]
+    iso2 = dict(zip(special, R.impl(special)))
+    hist = []
+    for a in special:
+        for b in special:
+            hist += [a, b]
+    res = R.impl(hist)
+    ex.account(hist, res)
+    for i, (l, a) in enumerate(zip(hist, res)):
+        if a != iso2[l]:
+            ex.violate("history: a call differs from the same call in isolation after the call before it", l, a, iso2[l],
+                       note="previous call: " + show_line(hist[i - 1])[:300] if i else "")
+            break
+    # N-th call: many failing calls first, then the valid ones again
+    failing = [l for l in special if iso2[l].startswith("err")]
+    deepfail = {"in": [1, 2]}
+    for _ in range(24): deepfail = {"or": [0, {"if": [1, deepfail]}]}
+    hist = ([gen.app(deepfail, None)] + failing) * (70 if tier == "quick" else 400) + special
+    res = R.impl(hist)
+    ex.account(hist, res)
+    iso2[gen.app(deepfail, None)] = R.impl([gen.app(deepfail, None)])[0]
+    for i, (l, a) in enumerate(zip(hist, res)):
+        if a != iso2[l]:
+            ex.violate("history: call %d differs from the same call in isolation after %d earlier (mostly failing) calls" % (i, i), l, a, iso2[l])
+            break
     # log: exactly one line per evaluated log, operand returned unchanged (through the model comparison)
     logs = []
     for v in gen.CORPUS[:120]:
